@@ -37,6 +37,19 @@ func genC10Recs(r *rand.Rand) []LRec {
 		{{"a", "bc"}}, {{"ab", "c"}}, {{"a", "b"}, {"c", ""}}, {{"a", ""}, {"bc", ""}}, {{"a", "bc"}, {"d", "x"}}, {{"a", "b"}, {"cd", "x"}},
 		{{"a", "1"}, {"b", "2"}, {"c", "3"}, {"d", "4"}, {"e", "5"}, {"f", "6"}}, {}, {{"abc", ""}}, {{"", "abc"}},
 	}
+	if r.Intn(3) == 0 {
+		// token soup: names and values from one small alphabet incl. the empty value, so that the token
+		// streams name,value,name,value of different label sets coincide once anything is left out
+		// ({a="",b=""} vs {a="b"}; {a="",b="x"} vs {a="b",x=""})
+		sets = nil
+		for k := 2 + r.Intn(4); k > 0; k-- {
+			var set [][2]string
+			for _, name := range distinctStrings(r, []string{"a", "b", "c", "ab", "bc", "x"}, 1+r.Intn(3)) {
+				set = append(set, [2]string{name, pick(r, []string{"", "", "a", "b", "c", "ab", "bc", "x"})})
+			}
+			sets = append(sets, set)
+		}
+	}
 	n := 2 + r.Intn(12)
 	recs := make([]LRec, n)
 	ts := mT0
@@ -72,7 +85,7 @@ var c13Ops = []string{"or", "and", "unless", "eq", "ne", "gt", "ge", "lt", "le",
 
 func init() {
 	props["C10"] = func(c *Ctx) {
-		c.Res.Rule = "case = 2-13 records whose label sets are prefixes/concatenations of one another ({a=bc} vs {ab=c}, {a=b,c=} vs {a=,bc=}), one 6-label set, all with permuted attribute order and repeated x count_over_time / sum by|without (...) over it x instant or range grid; every case evaluated 5x (20x thorough) to sample map iteration orders; compared with the model (series identified by label set) incl. the number of series per label set; non-trivial = at least 2 samples share a label set; distinct by request line"
+		c.Res.Rule = "case = 2-13 records whose label sets are prefixes/concatenations of one another ({a=bc} vs {ab=c}, {a=b,c=} vs {a=,bc=}), one 6-label set, or (a third of the cases) random sets over a shared alphabet of names and values incl. the empty value ({a=,b=} vs {a=b}), all with permuted attribute order and repeated x count_over_time / sum by|without (...) over it x instant or range grid; every case evaluated 5x (20x thorough) to sample map iteration orders; compared with the model (series identified by label set) incl. the number of series per label set; non-trivial = at least 2 samples share a label set; distinct by request line"
 		spec := metricSpec("Metric.eval (series identity) == Engine.Eval, repeated evaluations identical", "c10", func(r *rand.Rand) MetricCase {
 			base := &MExpr{Kind: "range", Op: "count_over_time", RangeS: pick(r, []int64{2, 5, 10})}
 			t := MetricCase{Recs: genC10Recs(r), Repeat: 5}
